@@ -536,6 +536,92 @@ def _int_dtype_case(task):
     return {'bad': bad, 'keys': nk, 'points': n}
 
 
+PAIR_KEYS = ('gammaup3', 'gammadet', 'gdown4', 'gup4', 'betadown3', 'nup4',
+             'ndown4', 'gammadown4', 'gammaup4', 'Kup3', 'Adown3', 'Aup3',
+             'Ktrace', 'A2', 'gammadown3_bssnok', 'gammaup3_bssnok',
+             'psi_bssnok', 'phi_bssnok', 'Adown3_bssnok', 'Aup3_bssnok',
+             'dttau', 'betamag', 'hdown4', 'hup4', 'hmixed4', 'uup4',
+             'udown4')
+
+
+def pair_history_case(task):
+    """All histories of length 2 over the algebraic keys, for both input
+    styles (arrays / components): X requested right after Y on a fresh
+    instance equals X requested first."""
+    try:
+        return _pair_history_case(task)
+    except Exception:      # noqa: BLE001
+        import traceback
+        return {'bad': [('raised', task, traceback.format_exc()[-400:])],
+                'pairs': 0}
+
+
+def _pair_history_case(task):
+    from aurel.core import AurelCore
+    from aurel.finitedifference import FiniteDifference
+    style, = task
+    alphas = (0.5, 1.0, 3.0)
+    betas = [(0.0, 0.0, 0.0), (-1.0, 0.0, 0.7), (0.7, 0.7, -1.0)]
+    G, Ks = spd_menu()[:8] + spd_menu()[-3:], k_menu()
+    pts = list(itertools.product(range(3), range(3), range(len(G)),
+                                 range(4)))
+    n = len(pts)
+    shape = (n, 1, 1)
+    a = np.array([alphas[p[0]] for p in pts]).reshape(shape)
+    b = np.array([betas[p[1]] for p in pts]).T.reshape((3,) + shape)
+    g = np.moveaxis(np.array([G[p[2]] for p in pts]), 0, -1).reshape(
+        (3, 3) + shape)
+    K = np.moveaxis(np.array([Ks[p[3]] for p in pts]), 0, -1).reshape(
+        (3, 3) + shape)
+    param = {'Nx': n, 'Ny': 1, 'Nz': 1, 'xmin': 0., 'ymin': 0., 'zmin': 0.,
+             'dx': 1., 'dy': 1., 'dz': 1.}
+    with quiet():
+        fd = FiniteDifference(param, boundary='periodic', fd_order=2,
+                              verbose=False)
+    if style == 'arrays':
+        inp = {'alpha': a, 'betaup3': b, 'gammadown3': g, 'Kdown3': K}
+    else:
+        inp = {'alpha': a}
+        for (i, j), nm in zip([(0, 0), (0, 1), (0, 2), (1, 1), (1, 2),
+                               (2, 2)], ['xx', 'xy', 'xz', 'yy', 'yz', 'zz']):
+            inp['g' + nm] = g[i, j].copy()
+            inp['k' + nm] = K[i, j].copy()
+        for i, c in enumerate('xyz'):
+            inp['beta' + c] = b[i].copy()
+
+    def mk():
+        with quiet():
+            rel = AurelCore(fd, verbose=False,
+                            clear_cache_every_nbr_calc=10 ** 9)
+        rel.data.update(inp)
+        rel.freeze_data()
+        return rel
+    first = {}
+    for k in PAIR_KEYS:
+        with quiet():
+            first[k] = np.array(mk()[k], copy=True)
+    bad = []
+    npairs = 0
+    for ky in PAIR_KEYS:
+        for kx in PAIR_KEYS:
+            if kx == ky:
+                continue
+            rel = mk()
+            with quiet():
+                rel[ky]
+                v = np.asarray(rel[kx])
+            npairs += 1
+            f = first[kx]
+            if v.shape != f.shape or not np.all(
+                    np.abs(v - f) <= 1e-9 * (1 + np.abs(f))):
+                bad.append((f'after-{ky}', kx, style))
+                if len(bad) > 8:
+                    return {'bad': bad, 'pairs': npairs}
+    # and against the other input style
+    return {'bad': bad, 'pairs': npairs,
+            'first': first}
+
+
 def curvature_symmetry_case(task):
     try:
         return _curvature_symmetry_case(task)
@@ -711,6 +797,27 @@ def main(tier):
             run.violation(f"C08:{b[0]}:{b[1]}",
                           f"integer-valued inputs typed int64 vs float64: "
                           f"{b}"[:400], {'int_dtype': 1, 'key': b[1]})
+    pres = runner.pmap(pair_history_case, [('arrays',), ('components',)],
+                       workers=2)
+    for r in pres:
+        n2 += r['pairs']
+        run.count('length2_histories', r['pairs'])
+        for b in r['bad']:
+            run.violation(f"C08:history:{b[0]}:{b[1]}",
+                          f"{b}"[:400], {'pair': [str(x) for x in b[:3]]})
+    if all('first' in r for r in pres):
+        for k in PAIR_KEYS:
+            fa, fc = pres[0]['first'][k], pres[1]['first'][k]
+            # pointwise scale: badly conditioned metrics of the menu
+            sc = np.abs(fa).max(axis=tuple(range(fa.ndim - 3)),
+                                keepdims=True) + 1e-300
+            d = float((np.abs(fa - fc) / sc).max()) if fa.shape == fc.shape \
+                else float('inf')
+            if not d <= 1e-9:
+                run.violation(f"C08:input-style:{k}",
+                              f"{k} differs by {d:.2e} (relative, pointwise) "
+                              "between array-style and component-style "
+                              "inputs holding the same values", {'key': k})
     ctasks = [(ia, ib, ig, ik, fl) for ia in range(3) for ib in range(3)
               for ig in range(4) for ik in range(1, 4) for fl in (False, True)]
     for t, r in zip(ctasks, runner.pmap(curvature_symmetry_case, ctasks,
